@@ -2,6 +2,8 @@
 
 Streams
  (a) polib_unescape vs the model on all strings over an escape alphabet (small scope) and random runs;
+ (a2) hexadecimal escapes of every length: ORACLE polib_unescape(spelling) == the bytes GNU gettext reads, asked from msgfmt itself when it
+     is installed and from a small implementation of the C rule otherwise (harness/gettext_ref.py; never from the model);
  (b) generated catalogs rendered by a PO printer with spelling parameters (chunking, per-character escape
      form, blank lines, comment kinds, obsolete markers, CRLF, separators) in every ASCII-compatible charset
      of data/encodings able to encode them: ORACLE load(render(c)) == c on the implementation (needs no model),
@@ -19,6 +21,7 @@ import warnings
 
 import common
 from common import enc_str, enc_bytes
+from harness import gettext_ref
 
 TRUSTED = [
     'Coq 8.16.1 kernel (coqc, vm_compute); coqchk in thorough tier',
@@ -238,7 +241,8 @@ HEXD = '0123456789abcdefABCDEF'
 
 
 def spell_byte(b, rng, forms):
-    """one escape item for byte b: (text, kind) with kind in named/oct1..3/hex1..2"""
+    """one escape item for byte b: (text, kind) with kind in named/oct1..3/hex1..2/hexN (three or more digits: gettext, like C,
+    takes every hex digit and keeps the low 8 bits, so the leading digits are zeros or anything else)"""
     form = rng.choice(forms)
     if form == 'named' and b in NAMED_BYTE:
         return '\\' + NAMED_BYTE[b], 'named'
@@ -247,14 +251,21 @@ def spell_byte(b, rng, forms):
         k = rng.randrange(len(o), 4)
         return '\\' + o.rjust(k, '0'), 'oct%d' % k
     h = '%x' % b
-    k = rng.randrange(len(h), 3)
-    h = h.rjust(k, '0')
-    return '\\x' + ''.join(c.upper() if rng.random() < 0.4 else c for c in h), 'hex%d' % k
+    if rng.random() < 0.3:
+        lead = rng.randrange(1, 7)
+        h = ('0' * lead if rng.random() < 0.5 else ''.join(rng.choice('0123456789abcdef') for _ in range(lead))) + '%02x' % b
+        kind = 'hexN'
+    else:
+        k = rng.randrange(len(h), 3)
+        h = h.rjust(k, '0')
+        kind = 'hex%d' % k
+    return '\\x' + ''.join(c.upper() if rng.random() < 0.4 else c for c in h), kind
 
 
 def spell_chunk(text, charset, rng, sp, stats):
     """text -> the characters between the quotes.  Each character literal or as the escaped bytes of its encoding.
-    Stays inside the family: after a hex escape no literal hex digit; after a short octal escape no literal digit."""
+    Stays inside the family: after a hex escape no literal hex digit (gettext would read it as one more digit of the escape);
+    after a short octal escape no literal digit."""
     out = []
     last = None          # kind of the last item when the previous character was escaped
     for ch in text:
@@ -609,7 +620,8 @@ def damage(raw, rng):
 # ---------------------------------------------------------------- (e) several files in one process
 def escape_spellings(b):
     return [''.join('\\%03o' % x for x in b), ''.join('\\x%02x' % x for x in b), ''.join('\\x%02X' % x for x in b),
-            ''.join(('\\%o' % x) if i == len(b) - 1 else ('\\%03o' % x) for i, x in enumerate(b))]
+            ''.join(('\\%o' % x) if i == len(b) - 1 else ('\\%03o' % x) for i, x in enumerate(b)),
+            ''.join('\\x%04x' % x for x in b), ''.join('\\xA5f%02X' % x for x in b)]      # hex escapes of more than two digits: the low 8 bits
 
 
 def seq_file(cs, esc, key):
@@ -682,7 +694,13 @@ def seq_worker(raws):
 
 
 # ---------------------------------------------------------------- findings
-def classify_failure(facts, raw):
+def d29_listed(prop='C10'):
+    """D29 (hex escapes of more than two digits) is tagged as a finding only while KNOWN_FINDINGS.jsonl lists it as known for this property;
+    once the entry says fixed a failure on such an input is an ordinary violation"""
+    return any(k.get('id') == 'D29' and k.get('property') == prop and k.get('status') == 'known' for k in common.load_known_findings())
+
+
+def classify_failure(facts, raw, d29=False):
     if facts['max_plural_index'] >= 10:
         return 'D9'
     if facts['obsolete_prev']:
@@ -691,6 +709,8 @@ def classify_failure(facts, raw):
         return 'D23'
     if facts.get('ascii_bytes_letter_escaped'):
         return 'D27'
+    if d29 and gettext_ref.has_long_hex(raw.decode('latin-1')):
+        return 'D29'
     return None
 
 
@@ -710,6 +730,18 @@ def bad_escape_present(s):
     return False
 
 
+# hexadecimal escapes: one and two digits, more digits (leading zeros / anything), either case, mixed runs, at the end of a run, before another
+# backslash, escaped backslashes before x (a backslash and the literal text x41BC)
+HEX_PROBES = [
+    'a\\x0cb', '\\x41BC', '\\x0041', '\\xe9e9z', '\\x00a9\\n', '\\x5', '\\x5\\\\', '\\x5\\x6', '\\x5\\n', '\\x41\\x42C\\101', '\\xaB', '\\xAb', '\\xab', '\\xAB',
+    '\\x00041', '\\xfffe', '\\xFFFE', '\\x123', '\\x1234567', '\\xabcdef', '\\xABCDEF41', '\\x100041', '\\\\x41BC', '\\\\\\x41BC', '\\\\\\\\x41BC',
+    '\\\\\\\\\\x41BC', '\\"\\x41BC', '\\x41\\\\x42', '\\x6\\\\x42', '\\x41 BC', '\\x41gBC', '\\x41GBC', '\\x41\\x42', '\\x6\\x42', '\\x416\\x42', '\\101\\x41',
+    '\\x41\\101', '\\x411\\101', '\\1\\x0001', '\\x5\\x5\\x5', '\\x05\\x005\\x0005', '\\n\\x41f\\t', '\\x7e\\x7E', '\\xe9', '\\xE9e9', '\\xe', '\\xeg', '\\xe\\xe',
+    '\\x0e\\101', 'q\\x41', '\\x41q', '\\x6q', 'x41', '\\x6\\"', '\\x1f6', '\\x1F41', '\\x3132', '\\x31\\62', '\\x3g1', '\\a\\x07\\x007', '\\xdeadbeef',
+    '\\xDEADBEEF', '\\xDeAdBeEf0', '\\x20', '\\x2020 ', '\\x9\\x99\\x999', '\\x' + '0' * 40 + 'e9', '\\x' + 'F' * 300 + '41', '\xe9\\xe9\xe9',
+]
+
+
 # ---------------------------------------------------------------- check
 def check(ctx):
     build = common.coq_build()
@@ -718,6 +750,7 @@ def check(ctx):
     quick = ctx.quick()
     shutil.rmtree(os.path.join(common.WORK, 'c10'), ignore_errors=True)
     _setup_impl()
+    d29 = d29_listed(ctx.id)
 
     # ---- (e) sequences of files with different charsets and the same escaped bytes, each sequence in one fresh process
     css0 = charsets()
@@ -734,7 +767,8 @@ def check(ctx):
                 ctx.fail('load-render-sequence',
                          {'files_loaded_in_this_order_by_one_process': [repr(x[0]) for x in sq[:k + 1]], 'charsets': [x[2] for x in sq[:k + 1]],
                           'expected_for_last': expected[-200:], 'observed_for_last': g[-200:]},
-                         'load(render(c)) != c for the last file of the sequence (each file alone, or in another order, may load correctly)')
+                         'load(render(c)) != c for the last file of the sequence (each file alone, or in another order, may load correctly)',
+                         finding='D29' if d29 and gettext_ref.has_long_hex(raw.decode('latin-1')) else None)
             else:
                 ctx.nontriv(('s', raw, k))
 
@@ -767,6 +801,7 @@ def check(ctx):
             ucases.append((''.join('\\%03o' % x for x in b), cs))
             ucases.append(('a' + ''.join('\\x%02X' % x for x in b) + 'z', cs))
             ucases.append((''.join('\\%o' % x for x in b[:1]), cs))
+    ucases.extend((sp, 'ISO-8859-1') for sp in HEX_PROBES)
     ures = pshards('shard_unescape', ucases, 4000)
     ctx.evaluations += len(ures)
     for (s, cs), (impl, model) in zip(ucases, ures):
@@ -784,13 +819,39 @@ def check(ctx):
                 ctx.fail('stderr-warning', {'string': s}, 'polib_unescape makes CPython print a SyntaxWarning on stderr',
                          finding='D14' if bad_escape_present(s) else None)
 
-    # ---- (a2) hexadecimal escapes with more than two digits: gettext (po-lex.c, like C) takes every hex digit and keeps the low 8 bits
-    for sp, want in [('a\\x0cb', 'a\xcb'), ('\\x41BC', '\xbc'), ('\\x0041', 'A'), ('\\xe9e9z', '\xe9z'), ('\\x00a9\\n', '\xa9\n')]:
+    # ---- (a2) hexadecimal escapes of every length: gettext (po-lex.c, like C) takes every hex digit and keeps the low 8 bits.
+    # ORACLE: polib_unescape(spelling) == what gettext reads; the reference is msgfmt itself when installed, else the C rule (gettext_ref)
+    probes = list(HEX_PROBES)
+    for _ in range(150 if quick else 3000):
+        t = ''
+        for _ in range(rng.randrange(1, 6)):
+            k = rng.random()
+            if k < 0.55:
+                t += '\\x' + ''.join(rng.choice(gettext_ref.HEXD) for _ in range(rng.randrange(1, 9)))
+            elif k < 0.65:
+                t += '\\' + rng.choice('ntbrfva\\"')
+            elif k < 0.75:
+                t += '\\' + rng.choice(['101', '7', '12', '377', '60'])
+            else:
+                t += rng.choice(['g', 'x', 'z', ' ', 'G', '\\\\x', '\xe9'])
+        probes.append(t)
+    sources, values, mismatches = gettext_ref.read_all(probes)
+    ctx.stats['hex_probe_reference'] = 'msgfmt' if 'msgfmt' in sources else 'c-rule'
+    for (sp, g, ge, r) in mismatches:
+        ctx.disagree('gettext reference', {'string': sp}, 'C rule: %r' % (r,), 'msgfmt: %r / at the end of a chunk: %r' % (g, ge))
+    for sp, want, source in zip(probes, values, sources):
+        if want is None:
+            ctx.count('hex-probe:not-asked')
+            continue
         r = impl_unescape((sp, 'ISO-8859-1'))
         ctx.evaluations += 1
-        if r != 'ok %s 0' % enc_str(want):
-            ctx.fail('hex-escape-length', {'string': sp, 'charset': 'ISO-8859-1', 'gettext_reads': repr(want)},
-                     'polib_unescape gives %s; gettext reads every hex digit of the escape (low 8 bits kept)' % r, finding='D29')
+        ctx.count('hex-probe:' + source)
+        if r != 'ok %s 0' % enc_str(want.decode('latin-1')):
+            ctx.fail('hex-escape-length', {'string': sp, 'charset': 'ISO-8859-1', 'gettext_reads': want.hex(' '), 'reference': source},
+                     'polib_unescape gives %s; gettext reads every hex digit of the escape (low 8 bits kept)' % r,
+                     finding='D29' if d29 and gettext_ref.has_long_hex(sp) else None)
+        else:
+            ctx.nontriv(('h', sp))
     # ---- (b) the printer family
     css = css0
     ctx.stats['charsets'] = len(css)
@@ -842,7 +903,7 @@ def check(ctx):
             ctx.disagree('load(family)', {'file': repr(raw), 'charset': meta['charset']}, model[:600], impl[:600])
         if impl != expected:
             ctx.fail('load-render', {'file': repr(raw), 'charset': meta['charset'], 'expected': expected[:1500], 'observed': impl[:1500]},
-                     'load(render(c)) != c', finding=classify_failure(facts, raw))
+                     'load(render(c)) != c', finding=classify_failure(facts, raw, d29))
         else:
             ctx.nontriv(('f', raw))
 
@@ -894,6 +955,7 @@ def check(ctx):
         ctx, 'proof', build, aud, TRUSTED, ASSUME,
         checker_cmd='tools/build.sh (coq_makefile + make: coqc on Props/C10.v) then coqc Audit_C10.v',
         rule='(a) polib_unescape vs model on all strings of length <= %d over a %d-character escape alphabet + random escape-heavy strings under 7 codecs; '
+             '(a2) hexadecimal escapes of 1..300 digits, mixed runs, escaped backslashes: polib_unescape == the bytes msgfmt stores (C rule when msgfmt is absent); '
              '(b) generated catalogs rendered with random spelling parameters in every ASCII-compatible charset of data/encodings able to encode them: '
              'oracle load(render(c)) == c on polib.pofile after install_patches, and model == implementation; (c) damaged files: model == implementation '
              'including the error line and kind; (d) line-separator characters; (e) sequences of 2-4 files with different charsets and the same escaped '
